@@ -169,8 +169,16 @@ fn with_placement(base: &Scenario, p: &Placement) -> Scenario {
         .collect();
     let at = p.at.min(s.steps.len());
     // one cancellation per settle, so that no tie with other actions arises
-    for (k, a) in acts.into_iter().enumerate() {
+    let mut k = 0;
+    for a in acts {
+        let is_drop = matches!(a, Action::Drop { .. });
         s.steps.insert(at + k, vec![a]);
+        k += 1;
+        if is_drop && (!s.host.is_direct() || s.defer_drops) {
+            // a drop is not a call: a Noop call lets the core notice it before anything else happens
+            s.steps.insert(at + k, vec![Action::Event(Event::Noop)]);
+            k += 1;
+        }
     }
     s.adaptive_drain = true;
     s
@@ -587,8 +595,8 @@ pub static C04: CmdCheck = CmdCheck {
     done: true,
     buggify: false,
     enumerate: false,
-    runs_quick: 60_000,
-    runs_thorough: 2_000_000,
+    runs_quick: 300_000,
+    runs_thorough: 6_000_000,
     tweak: c04_tweak,
     rule: RULE,
     extra_assumptions: &["two independent oracles: (1) reference semantics per step, (2) algebraic laws compared real-vs-real under the same script"],
@@ -619,8 +627,8 @@ pub static C01: CmdCheck = CmdCheck {
     done: false,
     buggify: false,
     enumerate: false,
-    runs_quick: 60_000,
-    runs_thorough: 2_000_000,
+    runs_quick: 300_000,
+    runs_thorough: 6_000_000,
     tweak: c01_tweak,
     rule: RULE,
     extra_assumptions: &["per call: returned effects == reference effects (nothing missing, extra or deferred), applied events == reference, runtime queues empty (verif_stats) after every call; Noop events act as probes for deferred work"],
@@ -651,8 +659,8 @@ pub static C02: CmdCheck = CmdCheck {
     done: false,
     buggify: false,
     enumerate: false,
-    runs_quick: 60_000,
-    runs_thorough: 2_000_000,
+    runs_quick: 300_000,
+    runs_thorough: 6_000_000,
     tweak: c02_tweak,
     rule: RULE,
     extra_assumptions: &[
@@ -683,8 +691,8 @@ pub static C03: CmdCheck = CmdCheck {
     done: false,
     buggify: false,
     enumerate: false,
-    runs_quick: 60_000,
-    runs_thorough: 2_000_000,
+    runs_quick: 300_000,
+    runs_thorough: 6_000_000,
     tweak: c03_tweak,
     rule: RULE,
     extra_assumptions: &["single-threaded half of C03 (exactly once, per-emitter order, no re-entrancy, view reflects every applied event); the concurrent-callers half is decided by C08"],
@@ -712,8 +720,8 @@ pub static C05: CmdCheck = CmdCheck {
     done: false,
     buggify: false,
     enumerate: false,
-    runs_quick: 30_000,
-    runs_thorough: 1_000_000,
+    runs_quick: 150_000,
+    runs_thorough: 3_000_000,
     tweak: c05_tweak,
     rule: RULE,
     extra_assumptions: &[
@@ -747,8 +755,8 @@ pub static C06: CmdCheck = CmdCheck {
     done: true,
     buggify: false,
     enumerate: true,
-    runs_quick: 3_000,
-    runs_thorough: 100_000,
+    runs_quick: 8_000,
+    runs_thorough: 200_000,
     tweak: c06_tweak,
     rule: "for each sampled (program, fault-free base script) EVERY single cancellation placement is executed: each step boundary x each registered abort handle (also repeated), each outstanding droppable request, each live command (direct host), plus abort+drop pairs and drop-everything; after the injected cancellation the script continues (late resolves of cancelled work included) and an adaptive drain resolves what the reference still has outstanding; evaluations counts base scenarios, placements_enumerated counts executed placements; distinct/non-trivial as for the other cmdsim checks",
     extra_assumptions: &["oracle after the cancellation point: the reference model, in which cancelled work produces nothing, siblings are unaffected, late resolves are inert; abort of a directly held command is done at once, nested aborted work may be reaped any time until its last wait fires"],
@@ -777,8 +785,8 @@ pub static C07: CmdCheck = CmdCheck {
     done: true,
     buggify: true,
     enumerate: false,
-    runs_quick: 60_000,
-    runs_thorough: 2_000_000,
+    runs_quick: 300_000,
+    runs_thorough: 6_000_000,
     tweak: c07_tweak,
     rule: RULE,
     extra_assumptions: &[
@@ -811,8 +819,8 @@ pub static C09: CmdCheck = CmdCheck {
     done: false,
     buggify: false,
     enumerate: false,
-    runs_quick: 40_000,
-    runs_thorough: 1_000_000,
+    runs_quick: 200_000,
+    runs_thorough: 4_000_000,
     tweak: c09_tweak,
     rule: RULE,
     extra_assumptions: &[
@@ -843,8 +851,8 @@ pub static C13: CmdCheck = CmdCheck {
     done: true,
     buggify: false,
     enumerate: false,
-    runs_quick: 20_000,
-    runs_thorough: 500_000,
+    runs_quick: 100_000,
+    runs_thorough: 2_000_000,
     tweak: c13_tweak,
     rule: "long histories of many small programs started one after another (start -> resolve / drop / abort -> finish), tasks holding drop-counted tokens; occupancy (executor tasks, command tasks, registry entries by kind, live tokens) is compared with the reference's outstanding work at every quiescent point and must be zero after the drain phase and after the host is dropped; non-trivial/distinct as for the other cmdsim checks",
     extra_assumptions: &["occupancy is read through the read-only verif accessors; registry growth is additionally bounded hook-free by the largest effect id handed out"],
